@@ -329,6 +329,8 @@ func vSchedShards(prop, tier string) []vShard {
 		}
 		if strings.HasPrefix(sc.Name, "store/") || strings.HasSuffix(sc.Name, "close-use") {
 			pb--
+			fb--
+			db = 1
 		}
 		sh = append(sh, vShard{Name: "sched/" + sc.Name, Run: func(c *vCtx) {
 			// iterate the bound: everything with 0 preemptions, then 1, then 2 ...
